@@ -195,7 +195,10 @@ Definition reload (s : store) (fo : file_outcome) (next : pool_id) : store * res
 
 (** [ctmo]: the idle-in-transaction timeout this client's CURRENT transaction runs under — read once, when the
     server is checked out (client.rs:1208-1211), not while the transaction is open *)
-Record client := { cdb : db; cuser : user; cclone : pool_id; cheld : option server_id; ctmo : nat }.
+Record client := { cdb : db; cuser : user; cclone : pool_id; cheld : option server_id; ctmo : nat;
+                   cset : pool_id   (* the pool object whose settings the client's query router works with (plugins, parser
+                                       flags, sharding function and shard count, default role): query_router.update_pool_settings,
+                                       client.rs:900 at start-up and :1104 in the refresh block of every checkout *) }.
 Record server := { sid : server_id; spool : pool_id; sholder : option cid }.
 
 Record world := {
@@ -206,6 +209,8 @@ Record world := {
   servers : list server;       (* open server connections; idle ones of a pool in hand-out order *)
   next_srv : server_id;
   validated : list pool_id;    (* pool objects whose [validated] flag is set (shared by all clones) *)
+  bans : list (pool_id * nat); (* banned servers: the ban list is a field of the pool OBJECT (pool.rs: [banlist: Arc::new(RwLock::new(
+                                  one empty map per shard of THIS definition))] in from_config), keyed here by (object, address index) *)
   waiting : list cid;          (* clients held in pool.wait_paused() at the start of a transaction (client.rs:1099-1100) *)
   paused : list key            (* PAUSEd pools.  The flag is an Arc shared by every clone and handed on to the object a
                                   reload builds for the same key (pool.rs from_config, dae4e52): one flag per key *)
@@ -233,7 +238,7 @@ Definition is_held (x : server) : bool := match sholder x with Some _ => true | 
 Definition gc (w : world) : world :=
   {| st := st w; objs := objs w; next_pool := next_pool w; clients := clients w;
      servers := filter (fun x => alive (st w) (clients w) (spool x) || is_held x) (servers w);
-     next_srv := next_srv w; validated := validated w; waiting := waiting w; paused := paused w |}.
+     next_srv := next_srv w; validated := validated w; bans := bans w; waiting := waiting w; paused := paused w |}.
 
 Definition idle_of (p : pool_id) (x : server) : bool :=
   (spool x =? p) && negb (is_held x).
@@ -267,7 +272,8 @@ Inductive op :=
 | OIdle (c : cid) (ms : nat)        (* the client sends nothing for [ms] inside its open transaction *)
 | OPause (k : key)                  (* admin: PAUSE db,user *)
 | OResume (k : key)                 (* admin: RESUME db,user *)
-| OWake (c : cid).                  (* a client held by PAUSE goes on after the notification *)
+| OWake (c : cid)                   (* a client held by PAUSE goes on after the notification *)
+| OBan (k : key) (i : nat).         (* server [i] of the pool registered for [k] is banned (admin BAN or a failed checkout) *)
 
 Inductive obs :=
 | ObReload (r : result)
@@ -284,7 +290,7 @@ Inductive obs :=
 
 Definition actor (o : op) : option cid :=
   match o with
-  | OReload _ | OPause _ | OResume _ => None
+  | OReload _ | OPause _ | OResume _ | OBan _ _ => None
   | OConnect c _ _ | OBegin c | OEnd c | ODisconnect c | OIdle c _ | OWake c => Some c
   end.
 
@@ -293,7 +299,7 @@ Definition has_pool (s : store) (k : key) : bool :=
 
 Definition with_clients (w : world) (cl : list (cid * client)) : world :=
   {| st := st w; objs := objs w; next_pool := next_pool w; clients := cl; servers := servers w; next_srv := next_srv w;
-     validated := validated w; waiting := waiting w; paused := paused w |}.
+     validated := validated w; bans := bans w; waiting := waiting w; paused := paused w |}.
 
 (** the part of a transaction start behind the pause gate (client.rs:1102-1215): [pool = self.get_pool().await?], settings
     refresh, checkout, idle timeout — everything is read NOW *)
@@ -304,27 +310,27 @@ Definition do_begin (w : world) (c : cid) (x : client) : world * obs :=
       match take_idle p c (servers w) with
       | Some (s, l') =>
           ({| st := st w; objs := objs w; next_pool := next_pool w;
-              clients := cl_set c {| cdb := cdb x; cuser := cuser x; cclone := p; cheld := Some s; ctmo := cidle (config (st w)) |} (clients w);
-              servers := l'; next_srv := next_srv w; validated := validated w; waiting := waiting w; paused := paused w |}, ObBegun p s false)
+              clients := cl_set c {| cdb := cdb x; cuser := cuser x; cclone := p; cheld := Some s; ctmo := cidle (config (st w)); cset := p |} (clients w);
+              servers := l'; next_srv := next_srv w; validated := validated w; bans := bans w; waiting := waiting w; paused := paused w |}, ObBegun p s false)
       | None =>
           let s := next_srv w in
           ({| st := st w; objs := objs w; next_pool := next_pool w;
-              clients := cl_set c {| cdb := cdb x; cuser := cuser x; cclone := p; cheld := Some s; ctmo := cidle (config (st w)) |} (clients w);
+              clients := cl_set c {| cdb := cdb x; cuser := cuser x; cclone := p; cheld := Some s; ctmo := cidle (config (st w)); cset := p |} (clients w);
               servers := {| sid := s; spool := p; sholder := Some c |} :: servers w;
-              next_srv := S s; validated := validated w; waiting := waiting w; paused := paused w |}, ObBegun p s true)
+              next_srv := S s; validated := validated w; bans := bans w; waiting := waiting w; paused := paused w |}, ObBegun p s true)
       end
   end.
 
 Definition unwait (w : world) (c : cid) : world :=
   {| st := st w; objs := objs w; next_pool := next_pool w; clients := clients w; servers := servers w; next_srv := next_srv w;
-     validated := validated w; waiting := filter (fun c' => negb (c' =? c)) (waiting w); paused := paused w |}.
+     validated := validated w; bans := bans w; waiting := filter (fun c' => negb (c' =? c)) (waiting w); paused := paused w |}.
 
 Definition step0 (w : world) (o : op) : world * obs :=
   match o with
   | OReload fo =>
       let '(s', r, n', new) := reload (st w) fo (next_pool w) in
       ({| st := s'; objs := new ++ objs w; next_pool := n'; clients := clients w; servers := servers w;
-          next_srv := next_srv w; validated := validated w; waiting := waiting w;
+          next_srv := next_srv w; validated := validated w; bans := bans w; waiting := waiting w;
           (* pool.rs from_config (2ecc068): the pools that are no longer registered are resumed, whatever their flag *)
           paused := match r with ROk true => filter (has_pool s') (paused w) | _ => paused w end |}, ObReload r)
   | OConnect c d u =>
@@ -334,14 +340,14 @@ Definition step0 (w : world) (o : op) : world * obs :=
           match plookup (d, u) (pools (st w)) with
           | None => (w, ObNoPool)                                                      (* client.rs:575-592 *)
           | Some (_, p) =>
-              let cl := cl_set c {| cdb := d; cuser := u; cclone := p; cheld := None; ctmo := 0 |} (clients w) in   (* client.rs:893-898 *)
+              let cl := cl_set c {| cdb := d; cuser := u; cclone := p; cheld := None; ctmo := 0; cset := p |} (clients w) in   (* client.rs:893-898 *)
               if existsb (Nat.eqb p) (validated w) then (with_clients w cl, ObConnected p)
               else
                 (* client.rs:740-741: the first client of a pool object that was built without validate_config
                    runs pool.validate(): one server connection is opened, its parameters are read, it goes back idle *)
                 ({| st := st w; objs := objs w; next_pool := next_pool w; clients := cl;
                     servers := {| sid := next_srv w; spool := p; sholder := None |} :: servers w;
-                    next_srv := S (next_srv w); validated := p :: validated w; waiting := waiting w; paused := paused w |}, ObConnected p)
+                    next_srv := S (next_srv w); validated := p :: validated w; bans := bans w; waiting := waiting w; paused := paused w |}, ObConnected p)
           end
       end
   | OBegin c =>
@@ -358,11 +364,11 @@ Definition step0 (w : world) (o : op) : world * obs :=
                    registered object and parks.  What it runs on is decided when it goes on ([OWake]), not now. *)
                 ({| st := st w; objs := objs w; next_pool := next_pool w;
                     clients := match plookup (cdb x, cuser x) (pools (st w)) with
-                               | Some (_, p) => cl_set c {| cdb := cdb x; cuser := cuser x; cclone := p; cheld := None; ctmo := ctmo x |} (clients w)
+                               | Some (_, p) => cl_set c {| cdb := cdb x; cuser := cuser x; cclone := p; cheld := None; ctmo := ctmo x; cset := cset x |} (clients w)
                                | None => clients w
                                end;
                     servers := servers w; next_srv := next_srv w; validated := validated w;
-                    waiting := c :: waiting w; paused := paused w |}, ObBlocked)
+                    bans := bans w; waiting := c :: waiting w; paused := paused w |}, ObBlocked)
               else
               match plookup (cdb x, cuser x) (pools (st w)) with
               | None => (with_clients w (cl_remove c (clients w)), ObNoPool)           (* client.rs:1081, 1686-1707 *)
@@ -370,14 +376,14 @@ Definition step0 (w : world) (o : op) : world * obs :=
                   match take_idle p c (servers w) with
                   | Some (s, l') =>
                       ({| st := st w; objs := objs w; next_pool := next_pool w;
-                          clients := cl_set c {| cdb := cdb x; cuser := cuser x; cclone := p; cheld := Some s; ctmo := cidle (config (st w)) |} (clients w);
-                          servers := l'; next_srv := next_srv w; validated := validated w; waiting := waiting w; paused := paused w |}, ObBegun p s false)
+                          clients := cl_set c {| cdb := cdb x; cuser := cuser x; cclone := p; cheld := Some s; ctmo := cidle (config (st w)); cset := p |} (clients w);
+                          servers := l'; next_srv := next_srv w; validated := validated w; bans := bans w; waiting := waiting w; paused := paused w |}, ObBegun p s false)
                   | None =>
                       let s := next_srv w in
                       ({| st := st w; objs := objs w; next_pool := next_pool w;
-                          clients := cl_set c {| cdb := cdb x; cuser := cuser x; cclone := p; cheld := Some s; ctmo := cidle (config (st w)) |} (clients w);
+                          clients := cl_set c {| cdb := cdb x; cuser := cuser x; cclone := p; cheld := Some s; ctmo := cidle (config (st w)); cset := p |} (clients w);
                           servers := {| sid := s; spool := p; sholder := Some c |} :: servers w;
-                          next_srv := S s; validated := validated w; waiting := waiting w; paused := paused w |}, ObBegun p s true)
+                          next_srv := S s; validated := validated w; bans := bans w; waiting := waiting w; paused := paused w |}, ObBegun p s true)
                   end
               end
           end
@@ -390,8 +396,8 @@ Definition step0 (w : world) (o : op) : world * obs :=
           | None => (w, ObNop)
           | Some _ =>
               ({| st := st w; objs := objs w; next_pool := next_pool w;
-                  clients := cl_set c {| cdb := cdb x; cuser := cuser x; cclone := cclone x; cheld := None; ctmo := ctmo x |} (clients w);
-                  servers := release c (servers w); next_srv := next_srv w; validated := validated w; waiting := waiting w; paused := paused w |}, ObEnded)
+                  clients := cl_set c {| cdb := cdb x; cuser := cuser x; cclone := cclone x; cheld := None; ctmo := ctmo x; cset := cset x |} (clients w);
+                  servers := release c (servers w); next_srv := next_srv w; validated := validated w; bans := bans w; waiting := waiting w; paused := paused w |}, ObEnded)
           end
       end
   | ODisconnect c =>
@@ -399,7 +405,7 @@ Definition step0 (w : world) (o : op) : world * obs :=
       | None => (w, ObNop)
       | Some _ =>
           ({| st := st w; objs := objs w; next_pool := next_pool w; clients := cl_remove c (clients w);
-              servers := release c (servers w); next_srv := next_srv w; validated := validated w; waiting := waiting w; paused := paused w |}, ObGone)
+              servers := release c (servers w); next_srv := next_srv w; validated := validated w; bans := bans w; waiting := waiting w; paused := paused w |}, ObGone)
       end
   | OIdle c ms =>
       match cl_lookup c (clients w) with
@@ -412,20 +418,20 @@ Definition step0 (w : world) (o : op) : world * obs :=
                  BEFORE the transaction loop; Err => "idle transaction timeout", break: checkin_cleanup, server released *)
               if negb (ctmo x =? 0) && (ctmo x <=? ms)
               then ({| st := st w; objs := objs w; next_pool := next_pool w;
-                       clients := cl_set c {| cdb := cdb x; cuser := cuser x; cclone := cclone x; cheld := None; ctmo := ctmo x |} (clients w);
-                       servers := release c (servers w); next_srv := next_srv w; validated := validated w; waiting := waiting w; paused := paused w |}, ObTimedOut)
+                       clients := cl_set c {| cdb := cdb x; cuser := cuser x; cclone := cclone x; cheld := None; ctmo := ctmo x; cset := cset x |} (clients w);
+                       servers := release c (servers w); next_srv := next_srv w; validated := validated w; bans := bans w; waiting := waiting w; paused := paused w |}, ObTimedOut)
               else (w, ObIdled)
           end
       end
   | OPause k =>                                                                        (* admin.rs:845-875 *)
       if has_pool (st w) k
       then ({| st := st w; objs := objs w; next_pool := next_pool w; clients := clients w; servers := servers w;
-               next_srv := next_srv w; validated := validated w; waiting := waiting w; paused := k :: paused w |}, ObAdmin true)
+               next_srv := next_srv w; validated := validated w; bans := bans w; waiting := waiting w; paused := k :: paused w |}, ObAdmin true)
       else (w, ObAdmin false)
   | OResume k =>
       if has_pool (st w) k
       then ({| st := st w; objs := objs w; next_pool := next_pool w; clients := clients w; servers := servers w;
-               next_srv := next_srv w; validated := validated w; waiting := waiting w; paused := filter (fun k' => negb (key_eqb k' k)) (paused w) |}, ObAdmin true)
+               next_srv := next_srv w; validated := validated w; bans := bans w; waiting := waiting w; paused := filter (fun k' => negb (key_eqb k' k)) (paused w) |}, ObAdmin true)
       else (w, ObAdmin false)
   | OWake c =>
       match cl_lookup c (clients w) with
@@ -434,6 +440,13 @@ Definition step0 (w : world) (o : op) : world * obs :=
           if negb (existsb (Nat.eqb c) (waiting w)) then (w, ObNop)
           else if existsb (key_eqb (cdb x, cuser x)) (paused w) then (w, ObBlocked)    (* still paused: keeps waiting *)
           else do_begin (unwait w c) c x
+      end
+  | OBan k i =>
+      match plookup k (pools (st w)) with
+      | Some (_, p) =>
+          ({| st := st w; objs := objs w; next_pool := next_pool w; clients := clients w; servers := servers w;
+              next_srv := next_srv w; validated := validated w; bans := (p, i) :: bans w; waiting := waiting w; paused := paused w |}, ObAdmin true)
+      | None => (w, ObAdmin false)
       end
   end.
 
@@ -487,7 +500,7 @@ End WithHash.
 Definition empty_cfg : cfg := {| cgen := 0; cidle := 0; cpools := [] |}.
 Definition empty_world : world :=
   {| st := {| config := empty_cfg; pools := [] |}; objs := []; next_pool := 0; clients := []; servers := []; next_srv := 0;
-     validated := []; waiting := []; paused := [] |}.
+     validated := []; bans := []; waiting := []; paused := [] |}.
 
 (** -------------------------------------------------------------- printable views for the tie *)
 
@@ -546,7 +559,7 @@ Fixpoint trace2 (hashf : pdef -> hash) (w : world) (l : list op) :=
                | OReload _ => view w1
                | _ => (0, [], [], map view_server (servers w1))   (* client steps do not touch CONFIG/POOLS (client_step_store) *)
                end in
-      (obs_code ob, v, view_objs w1, (cidle (config (st w1)), paused w1)) :: trace2 hashf w1 t
+      (obs_code ob, v, view_objs w1, (cidle (config (st w1)), paused w1, bans w1)) :: trace2 hashf w1 t
   end.
 
 (** build outcomes as data: the listed (pool, user) pairs fail / panic, all others are built *)
